@@ -26,7 +26,7 @@ RULE = ('One case = generated chart whose guards and contract conditions are pro
 ASSUMPTIONS = ['idle() inside the post-conditions/invariants of the transition being fired is accepted with either reading '
                '(stamp before or after that firing) - the statement does not fix it',
                'dyadic clock values make float arithmetic exact (W10)']
-REQUIRED_COUNTERS = ['idle_calls_checked', 'cases_with_ticking_clock', 'selection_under_plain_time_guards_cases', 'steps_checked', 'predicates_checked', 'predicates_at_exact_boundary', 'steps_with_clock_moved_inside',
+REQUIRED_COUNTERS = ['idle_calls_checked', 'cases_with_ticking_clock', 'cases_with_epoch_sized_clock', 'selection_under_plain_time_guards_cases', 'steps_checked', 'predicates_checked', 'predicates_at_exact_boundary', 'steps_with_clock_moved_inside',
                      'time_reads_checked', 'idle_after_internal_transition', 'guard_predicates', 'contract_predicates',
                      'multi_transition_steps']
 TIERS = dict(quick=dict(steps=40, gen=dict(max_states=10, max_depth=4, max_trans=14)),
@@ -140,6 +140,12 @@ def run_case(acc, rnd, tier, case):
                 self._now = v
         clock = TickingClock()
         acc.count('cases_with_ticking_clock')
+    elif rnd.random() < 0.2:
+        # epoch-sized times (what UtcClock shows): the predicates are about *elapsed* time, whatever the magnitude of the clock
+        from sismic.clock import SimulatedClock
+        clock = SimulatedClock()
+        clock.time = rnd.choice((1.7e9, 2.0 ** 31, 1.0e6 + 0.5))
+        acc.count('cases_with_epoch_sized_clock')
     it = Interpreter(sc, initial_context=pr.context(T=Tprobe, CLK=CLK), clock=clock)
     it.attach(pr.listener())
     it.attach(lambda m: log.append(('IT', m.name, it.time)))       # what Interpreter.time shows while a meta-event is delivered
